@@ -5,7 +5,7 @@ package stack
 // Contracts for the verifier in /verif (comment-only; compiled only with -tags verif).
 
 //@ func New() (result *Stack)
-//@   ensures new.fresh: result != nil && fresh(result) && len(result.entries) == 0
+//@   ensures new.fresh: result != nil && fresh(result) && result.entries == nil
 //@   panics never
 //@
 //@ func (s *Stack) Clear()
